@@ -313,7 +313,21 @@ def selftest():
     assert strip_colour('\x1b[35mabc\x1b[0m') == 'abc'
 
 
+def enum_lengths(tier):
+    """every length 0..1100 (quick) / 0..2100 (thorough) x the four classes, contents from a fixed pseudo-random bit pattern: no length threshold of str/repr
+    (digit selection at the residues, the 1000-bit / 250-character truncation) can be missed"""
+    import hashlib
+    stream = ''.join(format(b, '08b') for b in hashlib.shake_128(b'c19').digest(400))
+    top = 1100 if tier == 'quick' else 2100
+    for n in range(0, top + 1):
+        for i, cls in enumerate(('Bits', 'BitArray', 'ConstBitStream', 'BitStream')):
+            off = (n * 7 + i * 13) % 1000
+            yield {'bits': stream[off:off + n], 'cls': cls, 'pos': (n // 3) if cls in STREAMS and n % 2 else 0, 'lsb0': (n + i) % 5 == 0, 'file': False}
+
+
 SUBCHECKS = [
+    Sub('C19.str_repr_all_lengths', run_strrepr, enum=enum_lengths,
+        enum_exhaustive_note='every length 0..1100 (quick) / 0..2100 (thorough) x 4 classes (fixed pseudo-random contents, lsb0 for a fifth of them)'),
     Sub('C19.str_repr_roundtrip', run_strrepr, strategy=strrepr_case, examples={'quick': 8000, 'thorough': 120000}, ambient=('bytealigned',)),
     Sub('C19.pp_digits_layout_color', run_pp, strategy=pp_case, examples={'quick': 12000, 'thorough': 200000}),
     Sub('C19.array_repr', run_arr, strategy=arr_case, examples={'quick': 5000, 'thorough': 60000}),
